@@ -4,7 +4,7 @@
    (square or rectangular), any per-level pattern (any order of its entries,
    any first non-zero position, possibly empty). *)
 From Coq Require Import ZArith List Bool.
-From Verif.C15 Require Import Model Spec Proofs Proofs2 Proofs3.
+From Verif.C15 Require Import Model Spec Proofs Proofs2 Proofs3 Proofs4 Proofs5.
 Import ListNotations.
 Open Scope Z_scope.
 
@@ -216,11 +216,50 @@ Theorem kron_partial_spec : forall As rows ts, Forall rect As -> NoDup rows ->
 Proof. exact kron_partial_spec_l. Qed.
 Print Assumptions kron_partial_spec.
 
+(* restrict=True: row q of the result is row rows[q] of the dense Kronecker product, for any list
+   of valid rows (unsorted, repeated) *)
+Theorem kron_partial_restrict_spec : forall As rows ts, Forall rect As ->
+  kron_partial As rows true = Some ts ->
+  forall q r c, nth_error rows q = Some r -> 0 <= c < snd (shape (map mat_shape As)) ->
+  dense_entry ts (Z.of_nat q) c = kron_rec As r c.
+Proof. exact kron_partial_restrict_l. Qed.
+Print Assumptions kron_partial_restrict_spec.
+
 (* the positions of a Kronecker pattern of duplicate-free level patterns are pairwise distinct *)
 Theorem kron_pattern_distinct : forall bs bidx, wf_structure bs bidx -> Forall (@NoDup (Z * Z)) bidx ->
   NoDup (kron_pattern bs bidx).
 Proof. exact kron_pattern_NoDup. Qed.
 Print Assumptions kron_pattern_distinct.
 
-(* NOT PROVED -- REPLACED BELOW *)
+(* ---- level reordering (MLMatrix.reorder(axes) = permuted structure + np.transpose of the data):
+   K is a multi-index into the compact data tensor (K_k addresses the K_k-th entry of level k;
+   [cvalid bidx K]), sel the level entries it selects.  The datum data[K] sits in asmatrix() at the
+   row/column with digits sel, and in reorder(axes).asmatrix() at the PERMUTED digits -- every
+   number of levels, rectangular blocks, duplicate-free level patterns in any order, every list
+   `axes` of valid levels that covers all levels (in particular every permutation) ---- *)
+Theorem reorder_spec : forall bs bidx data axes K,
+  wf_structure bs bidx -> Forall (@NoDup (Z * Z)) bidx -> cvalid bidx K ->
+  Forall (fun a => (a < length bidx)%nat) axes -> (forall j, (j < length bidx)%nat -> In j axes) ->
+  let sel := sel_of (0, 0) bidx K in
+  let e := entry_of bs sel in
+  let e' := entry_of (reorder_bs bs axes) (pick (0, 0) sel axes) in
+  dense_entry (reorder_asmatrix bs bidx data axes) (fst e') (snd e')
+  = dense_entry (asmatrix bs bidx data) (fst e) (snd e)
+  /\ dense_entry (asmatrix bs bidx data) (fst e) (snd e) = nth (pos_of bidx K) data 0.
+Proof. exact reorder_spec_l. Qed.
+Print Assumptions reorder_spec.
 
+(* the n-th element of the Cartesian product in C order is the selection with mixed-radix digits n *)
+Theorem product_nth_spec : forall (B : Type) (d : B) (ls : list (list B)) (K : list nat),
+  cvalid ls K ->
+  (pos_of ls K < length (product ls))%nat /\ nth (pos_of ls K) (product ls) [] = sel_of d ls K.
+Proof. exact (@product_nth). Qed.
+Print Assumptions product_nth_spec.
+
+(* NOT PROVED (no theorem; exercised by the exact tie and the dense oracle on every run):
+   reorder_spec zero part -- that reorder(axes).asmatrix() is zero OUTSIDE the permuted pattern
+                         (the theorem covers every position of the pattern, i.e. every datum);
+   kron_partial_spec with repeated rows and restrict=False (scipy sums the duplicates; the
+                         theorem assumes NoDup rows; restrict=True is proved for any rows);
+   transpose_idx for patterns with duplicate entries (the dict keeps the last one);
+   kron_rec is not formally identified with C16's kron_ent (same recursion, nat/ring-generic there). *)
